@@ -53,6 +53,25 @@ def call_getter(p, name):
     return getattr(p, name)()
 
 
+def make_attrs(spec):
+    """Plan value -> the object handed to as_dict(attrs=...)."""
+    if not (isinstance(spec, dict) and "iterable" in spec):
+        return spec
+    names = ["name", "status"]
+    kind = spec["iterable"]
+    if kind == "generator":
+        return (n for n in names)
+    if kind == "dict":
+        return {n: 1 for n in names}
+    if kind == "iterator":
+        return iter(names)
+    if kind == "map":
+        return map(str, names)
+    if kind == "dict_keys":
+        return {n: 1 for n in names}.keys()
+    return b"name"
+
+
 def gen_change(rng):
     """A kernel-side change of the observed process."""
     r = rng.random()
@@ -137,7 +156,15 @@ class Threads(EngineBase):
                              "x", "zz_top", "memory", "open_file", "io"])
                         + rng.choice(["", "", "_", "2"])]
                 elif k_ < 0.9:
-                    attrs = "name"             # not a collection
+                    # not a collection (JSON cannot carry a generator:
+                    # {"iterable": kind} is turned into one when executed)
+                    attrs = rng.choice(["name", "name", 7,
+                                        {"iterable": "generator"},
+                                        {"iterable": "dict"},
+                                        {"iterable": "iterator"},
+                                        {"iterable": "map"},
+                                        {"iterable": "dict_keys"},
+                                        {"iterable": "bytes"}])
                 else:
                     attrs = []
                 op_ = {"op": "as_dict", "attrs": attrs}
@@ -239,8 +266,8 @@ class Threads(EngineBase):
                     if op.get("deny"):
                         k.deny = {"/proc/%d/%s" % (T, op["deny"]): 13}
                     try:
-                        out = ("value", p.as_dict(attrs=op["attrs"],
-                                                  ad_value="<ad>"))
+                        out = ("value", p.as_dict(
+                            attrs=make_attrs(op["attrs"]), ad_value="<ad>"))
                     finally:
                         pass
             except BaseException as e:  # noqa: BLE001
